@@ -15,7 +15,7 @@ from __future__ import annotations
 import ast
 
 from ..dims import DimAnalysis
-from ..facts import norm
+from ..facts import call_name, norm
 from ..linters import Linters
 from . import shared
 
@@ -113,6 +113,58 @@ def check(run, ctx):
                 else:
                     run.finding(B5, f.qual.replace("src.linters.", ""), f"column-from-other-node:{norm(col)}", f"line is taken from `{lb}` ({norm(ln)}) but column from `{norm(col)}`: for a construct spanning several lines the column can lie outside the reported line", f"{f.module.rel}:{c.lineno}")
 
+    B6 = run.rule("B6", "a call never pairs the line of a syntax node with one of that node's parts (loop variable over node.children/targets, node.<field>): the record built for the part would carry the parent's line", floor=20,
+                  decides="the name a message quotes occurs on the reported line, also for multi-line declarations (`const A = 1,\\n  B = 2`, `A = \\\\\\n  B = 5`)")
+    def line_base(e):
+        if isinstance(e, ast.BinOp) and isinstance(e.right, ast.Constant):
+            e = e.left
+        if isinstance(e, ast.Subscript) and isinstance(e.value, ast.Attribute) and e.value.attr == "start_point" and isinstance(e.slice, ast.Constant) and e.slice.value == 0:
+            return ast.unparse(e.value.value)
+        if isinstance(e, ast.Attribute) and e.attr == "lineno":
+            return ast.unparse(e.value)
+        return None
+    for f in sorted(ctx.repo.funcs.values(), key=lambda x: x.qual):
+        if not f.module.name.startswith("src.linters") or f.parent is not None:
+            continue
+        defs: dict[str, list] = {}
+        parts: dict[str, set[str]] = {}   # variable -> names of the nodes it is a part of
+        def part_of(target, src):
+            base = src
+            if isinstance(base, ast.Subscript):
+                base = base.value
+            if isinstance(base, ast.Call) and isinstance(base.func, ast.Attribute) and base.func.attr in ("child_by_field_name", "named_child", "child"):
+                base = base.func
+            if isinstance(base, ast.Attribute) and isinstance(target, ast.Name) and base.attr not in NON_NODE_ATTRS:
+                parts.setdefault(target.id, set()).add(ast.unparse(base.value))
+        for n in ast.walk(f.node):
+            if isinstance(n, ast.Assign) and len(n.targets) == 1 and isinstance(n.targets[0], ast.Name):
+                defs.setdefault(n.targets[0].id, []).append(n.value)
+                part_of(n.targets[0], n.value)
+            elif isinstance(n, ast.For):
+                part_of(n.target, n.iter)
+            elif isinstance(n, ast.comprehension):
+                part_of(n.target, n.iter)
+        for c in ast.walk(f.node):
+            if not isinstance(c, ast.Call):
+                continue
+            args = list(c.args) + [k.value for k in c.keywords]
+            for a in args:
+                b = line_base(a)
+                if b is None and isinstance(a, ast.Name) and len(defs.get(a.id, ())) == 1:
+                    b = line_base(defs[a.id][0])
+                if b is None:
+                    continue
+                sym = f"{f.qual.replace('src.linters.', '')}:{norm(c.func)}({norm(a)})"
+                culprit = [x.id for x in args if isinstance(x, ast.Name) and b in parts.get(x.id, ()) and x.id != b]
+                if culprit and not _line_param_becomes_record_line(ctx.repo, f, c, a):
+                    run.ok(B6, sym, f"`{culprit[0]}` is a part of `{b}`, but the callee does not store this line in a record's line field", nontrivial=False)
+                    continue
+                # an annotated assignment starts with its target: node.target with node.lineno is the same line by construction
+                if culprit:
+                    run.finding(B6, f.qual.replace("src.linters.", ""), f"parent-line-for-part:{culprit[0]}<-{b}", f"`{norm(c)[:90]}` passes `{culprit[0]}`, a part of `{b}`, together with the line of `{b}` itself: whatever is recorded for `{culprit[0]}` gets the line where `{b}` starts, which differs as soon as the construct spans several lines", f"{f.module.rel}:{c.lineno}")
+                else:
+                    run.ok(B6, sym, f"line of `{b}`; no argument is a part of `{b}`")
+
     B2 = run.rule("B2", "file-level violations (file-placement, missing header, orphaned header entry) use a constant line >= 1", floor=4)
     for sk in sinks:
         e = sk["args"].get("line")
@@ -128,3 +180,36 @@ def check(run, ctx):
         else:
             run.ok(B4, rec["func"], rec["use"], nontrivial=False)
     return __doc__
+
+
+
+NON_NODE_ATTRS = {"start_point", "end_point", "start_byte", "end_byte", "lineno", "end_lineno", "col_offset", "end_col_offset", "type", "text", "name", "id", "attr", "arg", "parent", "kind"}
+
+
+def _line_param_becomes_record_line(repo, f, call: ast.Call, line_arg: ast.expr) -> bool:
+    """Does the (same-module / same-class) callee put the parameter that receives line_arg straight into a
+    line=/line_number= field of something it constructs?  A constructor called with line= directly counts as well."""
+    for k in call.keywords:
+        if k.value is line_arg and k.arg in ("line", "line_number", "lineno"):
+            return True
+    nm = call_name(call)
+    cands = [g for g in repo.funcs.values() if g.module is f.module and g.name == nm and g.parent is None]
+    for g in cands:
+        params = [a.arg for a in g.node.args.posonlyargs + g.node.args.args]
+        if g.cls is not None and params and params[0] in ("self", "cls"):
+            params = params[1:]
+        pname = None
+        for i, a in enumerate(call.args):
+            if a is line_arg and i < len(params):
+                pname = params[i]
+        for k in call.keywords:
+            if k.value is line_arg:
+                pname = k.arg
+        if pname is None:
+            continue
+        for n in ast.walk(g.node):
+            if isinstance(n, ast.Call):
+                for k in n.keywords:
+                    if k.arg in ("line", "line_number", "lineno") and isinstance(k.value, ast.Name) and k.value.id == pname:
+                        return True
+    return False
